@@ -36,6 +36,8 @@ pub enum PKind {
     StaleSet,
     /// set whose value file was staged on ANOTHER filesystem (rename/link fail with EXDEV)
     SetOtherFs,
+    /// the public raw layer, without the front-end's single retry: raw_cache::insert_or_touch
+    RawPut,
 }
 
 #[derive(Clone, Debug, PartialEq, Eq, Hash, Serialize, Deserialize)]
@@ -75,6 +77,10 @@ pub enum Sched {
     /// freeze participant `frozen` forever after `at` of its steps, run the others alone one after
     /// the other; the frozen one is released only when everybody else is done
     Freeze { frozen: usize, at: u32 },
+    /// explicit bounded-preemption schedule: run participant `who` for `steps` of its steps, segment
+    /// after segment (the same participant may be preempted several times, by different peers);
+    /// afterwards everybody runs to completion in index order
+    Segments(Vec<(u8, u8)>),
     /// random-walk prefix, then only participant `solo` runs (everybody else frozen where they
     /// are) until it is done; the others are released afterwards
     PrefixSolo { prefix: Vec<u8>, solo: usize },
@@ -183,6 +189,7 @@ fn make_decide(strategy: &Sched, n: usize, monitor: Option<Box<dyn FnMut() + Sen
     let strategy = strategy.clone();
     let mut monitor = monitor;
     let mut pos = 0usize;
+    let mut seg_used = 0u32;
     let mut taken = vec![0u32; n]; // steps granted to each participant
     let mut prio: Vec<i32> = match &strategy {
         Sched::Pct { prio, .. } => (0..n).map(|i| 100 + *prio.get(i).unwrap_or(&0) as i32).collect(),
@@ -236,6 +243,22 @@ fn make_decide(strategy: &Sched, n: usize, monitor: Option<Box<dyn FnMut() + Sen
                     prio[p] = -(v.step as i32) - 1;
                 }
                 p
+            }
+            Sched::Segments(segs) => {
+                // `pos` = current segment; `seg_taken` is kept in taken[] of a virtual slot via closure state
+                let mut pick = None;
+                while pos < segs.len() {
+                    let (who, steps) = segs[pos];
+                    let who = who as usize % n;
+                    if runnable.contains(&who) && seg_used < steps as u32 {
+                        seg_used += 1;
+                        pick = Some(who);
+                        break;
+                    }
+                    pos += 1;
+                    seg_used = 0;
+                }
+                pick.unwrap_or(runnable[0])
             }
             Sched::PrefixSolo { prefix, solo } => {
                 if pos < prefix.len() {
@@ -361,6 +384,21 @@ fn perform(root: &Path, l: &Layout, h: &Handle, ro: &Option<Handle>, tid: usize,
                 Ok(Ok(())) => Ret::Unit,
                 Ok(Err(e)) => Ret::Err(e.into()),
                 Err(_) => Ret::Panic("set panicked".into()),
+            };
+            (ret, Some(val))
+        }
+        PKind::RawPut => {
+            // (plain layouts only; elsewhere it degrades to an ordinary put)
+            if l.kind != 0 || l.dirs_missing {
+                return (exec(root, h, &mk(OpKind::Put)).0, Some(val));
+            }
+            let src = make_source(&crate::fe::staging(root), "raw", &val.encode());
+            let dst = root.join("W").join(&ks.name);
+            let r = std::panic::catch_unwind(|| kismet_cache::raw_cache::insert_or_touch(&src, &dst));
+            let ret = match r {
+                Ok(Ok(())) => Ret::Unit,
+                Ok(Err(e)) => Ret::Err(e.into()),
+                Err(_) => Ret::Panic("insert_or_touch panicked".into()),
             };
             (ret, Some(val))
         }
@@ -564,6 +602,31 @@ pub fn single_preemptions(n: usize, solo_steps: &[u32]) -> Vec<Sched> {
         let first = order[0];
         for at in 0..=solo_steps[first] {
             v.push(Sched::Preempt { order: order.clone(), at });
+        }
+    }
+    v
+}
+
+/// All schedules in which one participant is preempted TWICE, each time by a different peer that
+/// then runs to completion (three participants): for every assignment (victim, first peer, second
+/// peer) and every pair of preemption points of the victim.
+pub fn double_preemptions(solo_steps: &[u32]) -> Vec<Sched> {
+    let mut v = Vec::new();
+    if solo_steps.len() != 3 {
+        return v;
+    }
+    for victim in 0..3usize {
+        for first in 0..3usize {
+            if first == victim {
+                continue;
+            }
+            let second = 3 - victim - first;
+            let total = solo_steps[victim].min(40);
+            for a in 0..=total {
+                for b in 1..=(total - a).min(12) {
+                    v.push(Sched::Segments(vec![(victim as u8, a as u8), (first as u8, 255), (victim as u8, b as u8), (second as u8, 255), (victim as u8, 255)]));
+                }
+            }
         }
     }
     v
